@@ -1,6 +1,6 @@
 (* QVM instructions: decoding (cpu.get_instruction_at), _exec_* and tick/_trap. *)
 From Coq Require Import ZArith List Bool Lia.
-From QV Require Import Sx Strs Fl Dec NumFmt Literal Cell Using Print Machine.
+From QV Require Import Sx Strs Fl Dec NumFmt Literal Cell Using Print Machine Instrs.
 Import ListNotations.
 Open Scope Z_scope.
 
@@ -152,6 +152,24 @@ Definition bitwise (op : Z -> Z -> Z) : M unit :=
        end.
 
 (* binary arithmetic with the "both numeric and same type" prelude of sub/mul/exp *)
+(* _exec_exp: an integral power that is certainly out of range (|base| >= 2, exponent > 64) traps
+   before the big number is computed (and before the trap message would try to print it) *)
+Definition pow_surely_overflows (a b : cell) : bool :=
+  match a, b with
+  | CI x, CI y | CL x, CL y => (y >? 64) && (Z.abs x >? 1)
+  | _, _ => false
+  end.
+
+(* base 0, 1, -1 with an exponent above 64: the value of x ** y without iterating y times *)
+Definition pow_small_base (a b : cell) : option Z :=
+  match a, b with
+  | CI x, CI y | CL x, CL y =>
+    if (y >? 64) && (Z.abs x <=? 1)
+    then Some (if x =? 0 then 0 else if x =? 1 then 1 else if Z.odd y then -1 else 1)
+    else None
+  | _, _ => None
+  end.
+
 Definition arith_prelude : M (cell * cell) :=
   do b <- pop; do a <- pop;
   if negb (is_numeric a) then type_mismatch
@@ -166,6 +184,26 @@ Definition pv (c : cell) : pyval :=
   | CStr s => PStrV s
   | CRef _ _ => PInt 0
   end.
+
+(* _exec_exp after the operand checks, as written before the overflow guard: a ** b, then push *)
+Definition exp_tail_ref (a b : cell) : M unit :=
+  match py_pow (pv a) (pv b) with
+  | PowV v => push (cell_ty a) v
+  | PowZeroDiv => (fun s => ZD s)
+  | PowOverflow => trap T_INVALID_CELL_VALUE
+  | PowComplex => trap T_INVALID_OPERAND_VALUE
+  | PowUnknown => crashM CrPowUnknown
+  end.
+
+(* the executable form: decides the two cases with an exponent above 64 without iterating
+   (Proofs/ExpShortcut.v: exp_tail = exp_tail_ref) *)
+Definition exp_tail (a b : cell) : M unit :=
+  if pow_surely_overflows a b then trap T_INVALID_CELL_VALUE else
+  match pow_small_base a b with
+  | Some v => push (cell_ty a) (PInt v)
+  | None => exp_tail_ref a b
+  end.
+
 
 Definition push_opt (ty : Z) (o : option pyval) : M unit :=
   match o with Some v => push ty v | None => crashM CrType end.
@@ -358,7 +396,7 @@ Definition exec (m : module) (i : instr) : M unit :=
   | IChr =>
     do c <- pop_int;
     if (c <? 0) || (c >? 255) then trap T_INVALID_OPERAND_VALUE
-    else push 5 (PStrV [cp437_decode [] c])
+    else push 5 (PStrV [cp437_decode cp437_upper c])
   | ICint =>
     do v <- pop;
     if negb (is_numeric v) then type_mismatch else
@@ -454,14 +492,7 @@ Definition exec (m : module) (i : instr) : M unit :=
   | IErrres => exec_errres m false
   | IErrresn => exec_errres m true
   | IExp =>
-    do (a, b) <- arith_prelude;
-    match py_pow (pv a) (pv b) with
-    | PowV v => push (cell_ty a) v
-    | PowZeroDiv => (fun s => ZD s)
-    | PowOverflow => trap T_INVALID_CELL_VALUE
-    | PowComplex => trap T_INVALID_OPERAND_VALUE
-    | PowUnknown => crashM CrPowUnknown
-    end
+    do (a, b) <- arith_prelude; exp_tail a b
   | IFrame p l =>
     do ret_addr <- pop_long;
     do s <- get;
@@ -724,7 +755,7 @@ Definition exec (m : module) (i : instr) : M unit :=
     match ch with
     | CI z =>
       if (z <? 0) || (z >? 255) then trap T_INVALID_OPERAND_VALUE
-      else push 5 (PStrV (repeat (cp437_decode [] z) (Z.to_nat len)))
+      else push 5 (PStrV (repeat (cp437_decode cp437_upper z) (Z.to_nat len)))
     | CStr s =>
       match s with
       | [] => trap T_INVALID_OPERAND_VALUE
